@@ -10,7 +10,7 @@ import (
 
 // VGList is an arbitrary singly linked list of n <= N elements satisfying the representation invariant.
 func VGList() (*List[int], []int) {
-	n := v.Split(v.IntIn("n", 0, v.CfgOr("N", 3)), 0, 16)
+	n := v.Split(v.IntIn("n", v.CfgOr("lo", 0), v.CfgOr("N", 3)), 0, 64)
 	l := &List[int]{size: n}
 	pre := make([]int, n)
 	var prev *element[int]
